@@ -133,8 +133,10 @@ func (v *collator_[V]) resetDepth() {
 
 func (v *collator_[V]) enterGetters() {
 	// A value that reaches itself through its own getters (an association whose
-	// value is the association itself) must not be followed forever.
-	if v.getters_ == v.maximum_ {
+	// value is the association itself) must not be followed forever.  The
+	// bound leaves room for what a nest of the maximum depth needs: one level
+	// of getters per association plus the class of the innermost one.
+	if v.getters_ > v.maximum_+1 {
 		panic(fmt.Sprintf("The maximum traversal depth was exceeded: %v", v.getters_))
 	}
 	v.getters_++
